@@ -109,8 +109,8 @@ type step struct {
 	BRAfter    *brView     `json:"requestAfter,omitempty"`
 	PodNodeBef string      `json:"podNodeBefore,omitempty"`
 	PodNodeAft string      `json:"podNodeAfter,omitempty"`
-	Attempt    bool        `json:"attempt,omitempty"`       // the reconcile went past the initial checks
-	BindCalls  int         `json:"bindingCalls,omitempty"`  // pods/binding calls it made
+	Attempt    bool        `json:"attempt,omitempty"`      // the reconcile went past the initial checks
+	BindCalls  int         `json:"bindingCalls,omitempty"` // pods/binding calls it made
 	StatusHit  bool        `json:"statusWriteFaulted,omitempty"`
 	WasTerm    bool        `json:"requestWasTerminal,omitempty"`
 	NodeGone   bool        `json:"selectedNodeGone,omitempty"`
